@@ -242,6 +242,13 @@ func (b *ShardBuilder) Write(out io.Writer) error {
 	w.writeTOC(&toc)
 	tocSection.end(w)
 	tocSection.write(w)
+	if w.err == nil {
+		// Most shards fit the buffer: their only real write happens here, and
+		// its error (disk full, I/O error) must not be lost in the deferred Flush.
+		if err := buffered.Flush(); err != nil {
+			return err
+		}
+	}
 	return w.err
 }
 
